@@ -117,7 +117,7 @@ func ParseTime(v string) (Time, error) {
 	}
 	// the text form has four digits for the year: an offset or the rounding can carry an accepted text across that limit,
 	// and the instant would be written as text that cannot be read back
-	if year := ret.Year(); year < 0 || year > 9999 {
+	if year := ret.Year(); year < 1 || year > 9999 { // (there is no year 0 for the store either)
 		return Time{}, errors.Errorf("date out of range: %s", v)
 	}
 	return ret, nil
